@@ -25,3 +25,7 @@ pub open spec fn replace_spec(name: Seq<u8>, target: Seq<u8>, source: Seq<u8>, s
         } else { Rep::NoMatch }
     }
 }
+pub proof fn lemma_is_name_skip(s: Seq<u8>)
+    requires is_name(s)
+    ensures skip_walk(s, 0) == Some(s.len() as int)
+{ lemma_plain_skip(s, 0, 0); }
